@@ -237,7 +237,6 @@ def step (s : Sess) (op : List String) : Sess :=
   | ["G"] =>
     match s.obj with
     | .msg m _ _ =>
-      if !(m.parsed || m.state == .noCLen) then { s with out := s.out.push "nosig" } else
       let (sg, e, p) := getMsgSig m s.buf
       if p then { s with out := s.out.push "PANIC", dead := true }
       else { s with out := s.out.push (Obs.msgsig sg ++ s!" err={e.name}") }
